@@ -50,11 +50,11 @@ theorem C27_no_response_no_trace (rs : RandomState) (R : Rrl) (now : Nat) (rnd :
 
 /-! ### keys -/
 
-/-- the key `process_response` computes is `keyFn` (and computing it panics only on the documented
-    impossible case: a NOERROR response without question) -/
-theorem C27_key_computed (rs : RandomState) (p : RrlParams) (c : Context) (h : c.WF) :
+/-- the key `process_response` computes is `keyFn`, for every context (a NOERROR response without
+    question — possible, D17 — is keyed under the root name) -/
+theorem C27_key_computed (rs : RandomState) (p : RrlParams) (c : Context) :
     keyOf rs p c = .ok (keyFn rs p c) :=
-  keyOf_ok rs p c h
+  keyOf_ok rs p c
 
 /-- **Key equality, as coded**: same address family (after the IPv4-mapped canonicalisation),
     same masked destination, same category, and for NOERROR the same 32-bit QNAME hash — nothing
@@ -169,11 +169,11 @@ theorem C27_sameNetwork_refl (v4len v6len : Nat) (s : Spec.Rrl.Addr) : Spec.Rrl.
     responses *of its stream* only. -/
 theorem C27_decisions_follow_streams {rs : RandomState} {p : RrlParams} {v4len v6len : Nat} (hv : p.Valid)
     (hm : MasksOf p v4len v6len) (T₀ : Nat) (reqs : List Req)
-    (hwf : AllWF reqs) (hmono : Mono T₀ reqs) (hsrc : SourcesCanonical reqs)
+    (hmono : Mono T₀ reqs) (hsrc : SourcesCanonical reqs)
     (hnc : NoBucketCollision rs p reqs) (hni : NoInitialKey rs p reqs) (hinj : HashInjectiveOn rs reqs) :
     runAll rs (Rrl.new p T₀) reqs =
       .ok (expectedFrom (specDecision (cfgOf p v4len v6len)) p [] reqs) :=
-  C26.C26_history hv hm T₀ reqs hwf hmono hsrc hnc hni hinj
+  C26.C26_history hv hm T₀ reqs hmono hsrc hnc hni hinj
 
 /-! ### non-vacuity: concrete addresses -/
 
